@@ -466,6 +466,29 @@ func (f *Frame) run(reach0 string) {
 			}
 			pre := st.clone()
 			f.havocKeeping(st, mod, pkgOfFn(f.fn))
+			if !mod.Top {
+				// locations the loop writes only in objects it allocates itself keep their values at
+				// every reference that existed on entry (freshloop.go)
+				a0 := vc.he.get(pre, "ALLOC", "Int")
+				fresh := vc.loopFreshOnly(li)
+				for _, l := range sortedKeys(mod.Locs) {
+					if !fresh[l] {
+						continue
+					}
+					switch mod.Locs[l].Kind {
+					case "F", "C", "E":
+						srt := mod.Locs[l].sort(vc.te)
+						h1 := vc.he.get(st, l, srt)
+						h0 := vc.he.get(pre, l, srt)
+						// r existed on entry: a proper object reference below the frontier, or an element
+						// slot of an array that existed (interior references are negative numbers)
+						vc.sc.decl("elem", "(declare-fun elem (Int Int) Int)")
+						vc.elemRef("0", "0")
+						existed := fmt.Sprintf("(or (and (<= 0 r) (<= r %s)) (and (< r 0) (<= (own r) %s)))", a0, a0)
+						vc.sc.assume(implies(f.reach[f.curB], fmt.Sprintf("(forall ((r Int)) (! (=> %s (= (select %s r) (select %s r))) :pattern ((select %s r))))", existed, h1, h0, h1)))
+					}
+				}
+			}
 			if f.top && !mod.Top {
 				// replay hint: "the counterexample happens in the first iteration"
 				for _, l := range sortedKeys(mod.Locs) {
@@ -712,15 +735,16 @@ func (vc *VC) subRef(owner types.Type, i int, r string) string {
 	inv := sym("subinv:" + typeKey(owner) + "." + owner.Underlying().(*types.Struct).Field(i).Name())
 	vc.sc.decl(fnm, fmt.Sprintf("(declare-fun %s (Int) Int)", fnm))
 	vc.sc.decl(inv, fmt.Sprintf("(declare-fun %s (Int) Int)", inv))
+	vc.sc.decl("own", "(declare-fun own (Int) Int)") // the allocated object an interior reference lies in
 	if hasBound(r) {
-		vc.sc.declAxiom("sub:"+fnm, fmt.Sprintf("(forall ((r Int)) (! (and (= (%s (%s r)) r) (< (%s r) 0)) :pattern ((%s r))))", inv, fnm, fnm, fnm), fnm)
+		vc.sc.declAxiom("sub:"+fnm, fmt.Sprintf("(forall ((r Int)) (! (and (= (%s (%s r)) r) (< (%s r) 0) (= (own (%s r)) (own r))) :pattern ((%s r))))", inv, fnm, fnm, fnm, fnm), fnm)
 		return app(fnm, r)
 	}
 	t := app(fnm, r)
 	key := "inst:" + t
 	if !vc.sc.declSet[key] {
 		vc.sc.declSet[key] = true
-		vc.sc.assume(and(eq(app(inv, t), r), app("<", t, "0")))
+		vc.sc.assume(and(eq(app(inv, t), r), app("<", t, "0"), eq(app("own", t), app("own", r)), implies(app(">=", r, "0"), eq(app("own", r), r))))
 	}
 	return t
 }
@@ -729,15 +753,16 @@ func (vc *VC) elemRef(arr, idx string) string {
 	vc.sc.decl("elem", "(declare-fun elem (Int Int) Int)")
 	vc.sc.decl("elem_arr", "(declare-fun elem_arr (Int) Int)")
 	vc.sc.decl("elem_idx", "(declare-fun elem_idx (Int) Int)")
+	vc.sc.decl("own", "(declare-fun own (Int) Int)")
 	if hasBound(arr+idx) {
-		vc.sc.declAxiom("elem", "(forall ((a Int) (i Int)) (! (and (= (elem_arr (elem a i)) a) (= (elem_idx (elem a i)) i) (< (elem a i) 0)) :pattern ((elem a i))))", "elem")
+		vc.sc.declAxiom("elem", "(forall ((a Int) (i Int)) (! (and (= (elem_arr (elem a i)) a) (= (elem_idx (elem a i)) i) (< (elem a i) 0) (= (own (elem a i)) (own a)) (=> (>= a 0) (= (own a) a))) :pattern ((elem a i))))", "elem")
 		return app("elem", arr, idx)
 	}
 	t := app("elem", arr, idx)
 	key := "inst:" + t
 	if !vc.sc.declSet[key] {
 		vc.sc.declSet[key] = true
-		vc.sc.assume(and(eq(app("elem_arr", t), arr), eq(app("elem_idx", t), idx), app("<", t, "0")))
+		vc.sc.assume(and(eq(app("elem_arr", t), arr), eq(app("elem_idx", t), idx), app("<", t, "0"), eq(app("own", t), app("own", arr)), implies(app(">=", arr, "0"), eq(app("own", arr), arr))))
 	}
 	return t
 }
